@@ -11,6 +11,11 @@
   `known_findings.txt` / `notes/proposed_findings/C20.txt` that reproduce on the current files); and
   `…_full_fails`, which proves — from one kernel-checked witness per excluded name — that the full
   statement holds iff that list is empty, i.e. it is refuted as long as one known finding reproduces.
+
+  Sections 6–10 (clause audit): wrapper name ↔ bound C symbol for Fortran / Pascal / the IDL glue, the public Pascal
+  declarations (`xraylib_iface.pas`), the two IDL routine declaration sets, record layouts, the library's own build
+  definition (`src/meson.build`, `src/Makefile.am`), the libtool triple, SWIG's `-includeall`.  Every table they range
+  over has a lower bound in `audit_tables_nonvacuous`.
 -/
 import XrlL4.Table
 import XrlL4.Gen.C20
@@ -86,24 +91,57 @@ theorem families_complete_idl :
    completeExcept_nil.mp (completeB_sound (by decide +kernel)), completeExcept_nil.mp (completeB_sound (by decide +kernel)),
    completeExcept_nil.mp (completeB_sound (by decide +kernel)), completeExcept_nil.mp (completeB_sound (by decide +kernel))⟩
 
-/-- Cython publishes the shell, line, Coster–Kronig and Auger families (it publishes no NIST-compound or radionuclide
-index at all; the check verifies on every run that this is still so). -/
+/-- Cython (`python/xraylib_np.pyx`): all six families.  The module publishes no NIST-compound or radionuclide index at all
+and lacks two line macros; each of these is an entry of `known_findings.txt` (a family that is absent as a whole is one
+entry, and `known_fam_cython` then lists all its members). -/
 def families_complete_cython_full : Prop :=
   Complete fam_SHELL names_cython ∧ Complete fam_LINE names_cython ∧ Complete fam_TRANS names_cython ∧
-  Complete fam_AUGER names_cython
+  Complete fam_AUGER names_cython ∧ Complete fam_NIST_COMPOUND names_cython ∧ Complete fam_RADIO_NUCLIDE names_cython
 
 theorem families_complete_cython_partial :
-    Complete fam_SHELL names_cython ∧ CompleteExcept known_fam_cython fam_LINE names_cython ∧
-    Complete fam_TRANS names_cython ∧ Complete fam_AUGER names_cython :=
-  ⟨completeExcept_nil.mp (completeB_sound (by decide +kernel)), completeB_sound (by decide +kernel),
-   completeExcept_nil.mp (completeB_sound (by decide +kernel)), completeExcept_nil.mp (completeB_sound (by decide +kernel))⟩
+    CompleteExcept known_fam_cython fam_SHELL names_cython ∧ CompleteExcept known_fam_cython fam_LINE names_cython ∧
+    CompleteExcept known_fam_cython fam_TRANS names_cython ∧ CompleteExcept known_fam_cython fam_AUGER names_cython ∧
+    CompleteExcept known_fam_cython fam_NIST_COMPOUND names_cython ∧
+    CompleteExcept known_fam_cython fam_RADIO_NUCLIDE names_cython :=
+  ⟨completeB_sound (by decide +kernel), completeB_sound (by decide +kernel), completeB_sound (by decide +kernel),
+   completeB_sound (by decide +kernel), completeB_sound (by decide +kernel), completeB_sound (by decide +kernel)⟩
+
+/-- the six families, as one list (used only to state `families_complete_cython_full_fails`'s witness check) -/
+def fams6 : List (List Nat) := [fam_SHELL, fam_LINE, fam_TRANS, fam_AUGER, fam_NIST_COMPOUND, fam_RADIO_NUCLIDE]
 
 theorem families_complete_cython_full_fails : families_complete_cython_full ↔ known_fam_cython = [] := by
   have hp := families_complete_cython_partial
-  have hl := complete_iff_no_known hp.2.1 (missingB_sound (X := known_fam_cython) (by decide +kernel))
+  have hm := missingAnyB_sound (X := known_fam_cython) (Fs := fams6) (B := names_cython) (by decide +kernel)
+  have m0 : fam_SHELL ∈ fams6 := .head _
+  have m1 : fam_LINE ∈ fams6 := .tail _ (.head _)
+  have m2 : fam_TRANS ∈ fams6 := .tail _ (.tail _ (.head _))
+  have m3 : fam_AUGER ∈ fams6 := .tail _ (.tail _ (.tail _ (.head _)))
+  have m4 : fam_NIST_COMPOUND ∈ fams6 := .tail _ (.tail _ (.tail _ (.tail _ (.head _))))
+  have m5 : fam_RADIO_NUCLIDE ∈ fams6 := .tail _ (.tail _ (.tail _ (.tail _ (.tail _ (.head _)))))
+  have cases6 : ∀ (Q : List Nat → Prop), Q fam_SHELL → Q fam_LINE → Q fam_TRANS → Q fam_AUGER → Q fam_NIST_COMPOUND →
+      Q fam_RADIO_NUCLIDE → ∀ F ∈ fams6, Q F := by
+    intro Q q0 q1 q2 q3 q4 q5 F hF
+    cases hF with
+    | head => exact q0
+    | tail _ hF => cases hF with
+      | head => exact q1
+      | tail _ hF => cases hF with
+        | head => exact q2
+        | tail _ hF => cases hF with
+          | head => exact q3
+          | tail _ hF => cases hF with
+            | head => exact q4
+            | tail _ hF => cases hF with
+              | head => exact q5
+              | tail _ hF => cases hF
+  have h := complete_all_iff_no_known (X := known_fam_cython) (B := names_cython) (Fs := fams6)
+    (cases6 (fun F => CompleteExcept known_fam_cython F names_cython) hp.1 hp.2.1 hp.2.2.1 hp.2.2.2.1 hp.2.2.2.2.1 hp.2.2.2.2.2) hm
   constructor
-  · intro h; exact hl.mp h.2.1
-  · intro h; exact ⟨hp.1, hl.mpr h, hp.2.2.1, hp.2.2.2⟩
+  · intro hf
+    exact h.mp (cases6 (fun F => Complete F names_cython) hf.1 hf.2.1 hf.2.2.1 hf.2.2.2.1 hf.2.2.2.2.1 hf.2.2.2.2.2)
+  · intro hx
+    have a := h.mpr hx
+    exact ⟨a _ m0, a _ m1, a _ m2, a _ m3, a _ m4, a _ m5⟩
 
 /-! ## 3. prototypes -/
 
@@ -179,14 +217,145 @@ theorem cython_bodies_bind_same_name : ∀ p ∈ cython_calls, p.1 = p.2 := by
   intro p hp
   simpa using (List.all_eq_true.mp h) p hp
 
+/-! ## 6. wrapper name ↔ bound C symbol (Fortran `BIND(C,NAME=…)`, Pascal `external … name '…'`, IDL glue) -/
+
+/-- Fortran (`fortran/xraylib_wrap.F90`, `xraylib_wrap_generated.F90`): an interface body of the module's own INTERFACE block
+is bound to the C symbol of its own name; a module procedure binds and calls, besides `void` helper functions (`xrlFree`,
+`xrl_error_free`, `Free…`) and libc `strlen`, only the C function it is named after; and every module procedure named after a
+C function does bind and call it, unless it is a native re-implementation without any foreign declaration. -/
+theorem fortran_wrappers_bind_same_name :
+    (∀ p ∈ fortran_direct, p.1 = p.2) ∧ BindsSame cproto libc_names fortran_calls ∧
+    BindsOwn fortran_named fortran_native fortran_calls ∧ (∀ w ∈ fortran_native, ∀ p ∈ fortran_calls, p.1 ≠ w) :=
+  ⟨allDiagB_sound (by decide +kernel), bindsSameB_sound (by decide +kernel), bindsOwnB_sound (by decide +kernel),
+   nativeFreeB_sound (by decide +kernel)⟩
+
+/-- Pascal (`pascal/xraylib.pas` with `xraylib_iface.pas` / `xraylib_impl.pas` included): the same three statements for the
+`external` declarations of the interface section and the procedures of the implementation section. -/
+theorem pascal_wrappers_bind_same_name :
+    (∀ p ∈ pascal_direct, p.1 = p.2) ∧ BindsSame cproto libc_names pascal_calls ∧
+    BindsOwn pascal_named pascal_native pascal_calls ∧ (∀ w ∈ pascal_native, ∀ p ∈ pascal_calls, p.1 ≠ w) :=
+  ⟨allDiagB_sound (by decide +kernel), bindsSameB_sound (by decide +kernel), bindsOwnB_sound (by decide +kernel),
+   nativeFreeB_sound (by decide +kernel)⟩
+
+/-- IDL (`idl/xraylib_idl.c`): the glue function `IDL_<x>` registered under the IDL name `"NAME"` calls, besides `void`
+helpers, only the C function whose name is `NAME` (ignoring case), and it does call it — for every registered routine. -/
+theorem idl_wrappers_bind_same_name :
+    BindsSame cproto libc_names idl_calls ∧ BindsOwn idl_named idl_native idl_calls ∧ idl_native = [] ∧
+    (∀ r ∈ idl_sysfun, r.n ∈ idl_named) := by
+  refine ⟨bindsSameB_sound (by decide +kernel), bindsOwnB_sound (by decide +kernel), by decide +kernel, ?_⟩
+  have h : (idl_sysfun.all fun r => idl_named.contains r.n) = true := by decide +kernel
+  intro r hr
+  exact List.contains_iff_mem.mp ((List.all_eq_true.mp h) r hr)
+
+/-! ## 7. Pascal: public declarations (incl. the previously unread `xraylib_iface.pas`) -/
+
+/-- every non-external function the unit declares in its interface section is a C function of that name whose visible
+parameters (all but `xrl_error **`, the `int *` length out-parameter and the `Crystal_Array *` catalogue) and result have the
+declared types (`string` ↦ `char *`, `TStringArray` ↦ `char **`, `P…` ↦ pointer to the record) -/
+theorem pascal_public_signatures_agree : ProtosAgree pascal_public (cproto.map P.vis) :=
+  protosAgreeExcept_nil.mp (protoB_sound (by decide +kernel))
+
+/-- `xraylib_iface.pas` declares exactly the functions `xraylib_impl.pas` defines, with textually identical headers -/
+theorem pascal_iface_matches_impl : pascal_iface = pascal_impl := by decide +kernel
+
+/-! ## 8. IDL routine declarations: the fourth hand-written declaration set -/
+
+/-- `idl/libxrlidl.dlm` and the `IDL_SYSFUN_DEF2` tables of `idl/xraylib_idl.c`: every routine is a C function (name compared
+without case), takes exactly its visible parameters (min = max = their number), and an IDL FUNCTION wraps a C function that
+returns a value -/
+theorem idl_routines_agree : RoutinesAgree idl_dlm cproto ∧ RoutinesAgree idl_sysfun cproto :=
+  ⟨routinesB_sound (by decide +kernel), routinesB_sound (by decide +kernel)⟩
+
+/-- the two IDL declaration sets are the same set of (name, FUNCTION/PROCEDURE, min, max) -/
+theorem idl_sources_same : idl_dlm = idl_sysfun := by decide +kernel
+
+/-! ## 9. record layouts -/
+
+/-- Fortran `TYPE, BIND(C)`: same fields (names compared without case), same order, same C types as the C struct; `TYPE(C_PTR)`
+matches any pointer -/
+theorem struct_layouts_agree_fortran : StructsAgree struct_fortran struct_c_uc :=
+  structsB_sound (by decide +kernel)
+
+/-- Pascal records (`{$PACKRECORDS C}`): `array of T` / `PAnsiChar` ↦ pointer, `longint` ↦ `int`, enumeration ↦ `int` -/
+theorem struct_layouts_agree_pascal : StructsAgree struct_pascal struct_c_uc :=
+  structsB_sound (by decide +kernel)
+
+/-- Cython `cdef extern` structs take the layout from the header; every member they declare is a member of the C struct with
+that type -/
+theorem struct_members_agree_cython : StructMembersAgree struct_cython struct_c :=
+  structMembersB_sound (by decide +kernel)
+
+/-- the upper-case copy of the C struct table is the C struct table (same structs, same type sequences) -/
+theorem struct_c_uc_is_struct_c :
+    struct_c_uc.map (fun s => (s.n, s.fields.map (·.2))) = struct_c.map (fun s => (s.n, s.fields.map (·.2))) := by
+  decide +kernel
+
+/-! ## 10. the library's build definition, libtool version, SWIG -/
+
+/-- the C sources of `library('xrl', …)` in `src/meson.build` are those of `libxrl_la_SOURCES` in `src/Makefile.am`, the
+library whose symbols `declared_is_exported` ranges over was compiled from exactly these, and both build definitions hide
+symbols by default and define `XRL_EXTERN` as that build did -/
+theorem library_sources_agree :
+    lib_sources_meson = lib_sources_automake ∧ lib_sources_built = lib_sources_meson ∧ ∀ p ∈ lib_build_facts, p.2 = 1 := by
+  refine ⟨by decide +kernel, by decide +kernel, ?_⟩
+  have h : (lib_build_facts.all fun p => p.2 == 1) = true := by decide +kernel
+  intro p hp
+  simpa using (List.all_eq_true.mp h) p hp
+
+/-- `configure.ac` and `meson.build` state the same libtool current:revision:age, and every hard-coded library major number
+(`External_library` of `pascal/xraylib.pas`) is current − age -/
+theorem libtool_versions_agree :
+    (∀ x ∈ libtool_triples, ∀ y ∈ libtool_triples, x.2 = y.2) ∧
+    (∀ t ∈ libtool_triples, ∀ s ∈ soname_refs, s.2 + t.2.2.2 = t.2.1) := by
+  have h1 : (libtool_triples.all fun x => libtool_triples.all fun y => decide (x.2 = y.2)) = true := by decide +kernel
+  have h2 : (libtool_triples.all fun t => soname_refs.all fun s => decide (s.2 + t.2.2.2 = t.2.1)) = true := by
+    decide +kernel
+  constructor
+  · intro x hx y hy
+    simpa using (List.all_eq_true.mp ((List.all_eq_true.mp h1) x hx)) y hy
+  · intro t ht s hs
+    simpa using (List.all_eq_true.mp ((List.all_eq_true.mp h2) t ht)) s hs
+
+/-- SWIG sees the constants and prototypes of the sub-headers only because every build file runs it with `-includeall`
+(or `src/xraylib.i` would have to `%include` each public header itself) -/
+theorem swig_reaches_all_headers : (∀ p ∈ swig_invocations, p.2 = 1) ∨ swig_unincluded = [] := by
+  have h : ((swig_invocations.all fun p => p.2 == 1) || swig_unincluded.isEmpty) = true := by decide +kernel
+  rw [Bool.or_eq_true] at h
+  rcases h with h | h
+  · left; intro p hp; simpa using (List.all_eq_true.mp h) p hp
+  · right; exact List.isEmpty_iff.mp h
+
 /-! ## non-vacuity: the tables the statements range over are the big ones, and the excluded sets are small -/
 
 example : cconst.length ≥ 1600 ∧ const_fortran.length ≥ 1600 ∧ const_pascal.length ≥ 1600 ∧ const_java.length ≥ 1600 ∧
     const_idl.length ≥ 1600 ∧ const_cython.length ≥ 1400 := by decide +kernel
 example : known_const_fortran.length ≤ 3 ∧ known_const_idl.length ≤ 4 ∧ known_const_pascal.length ≤ 1 ∧
-    known_fam_cython.length ≤ 2 ∧ known_proto_pascal.length ≤ 7 ∧ known_proto_cython.length ≤ 27 := by decide +kernel
+    known_fam_cython.length ≤ 192 ∧ known_proto_pascal.length ≤ 7 ∧ known_proto_cython.length ≤ 27 := by decide +kernel
 example : proto_fortran.length ≥ 170 ∧ proto_pascal.length ≥ 150 ∧ proto_cython.length ≥ 70 ∧ cproto.length ≥ 170 ∧
-    declared.length ≥ 130 ∧ versions.length ≥ 6 ∧ idl_common.length ≥ 1600 ∧ cython_calls.length ≥ 60 := by decide +kernel
+    declared.length ≥ 130 ∧ versions.length ≥ 9 ∧ idl_common.length ≥ 1600 ∧ cython_calls.length ≥ 60 := by decide +kernel
+/-- the tables of sections 6–10 are the real ones: an extractor that silently reads nothing fails here -/
+theorem audit_tables_nonvacuous :
+    fortran_calls.length ≥ 160 ∧ fortran_direct.length ≥ 6 ∧ fortran_named.length ≥ 145 ∧ fortran_native.length ≤ 1 ∧
+    pascal_calls.length ≥ 140 ∧ pascal_direct.length ≥ 18 ∧ pascal_named.length ≥ 138 ∧ pascal_native.length ≤ 1 ∧
+    idl_calls.length ≥ 140 ∧ idl_named.length ≥ 140 ∧ idl_dlm.length ≥ 140 ∧ idl_sysfun.length ≥ 140 ∧
+    pascal_public.length ≥ 140 ∧ pascal_iface.length ≥ 128 ∧ pascal_impl.length ≥ 128 ∧
+    struct_c.length ≥ 8 ∧ struct_fortran.length ≥ 10 ∧ struct_pascal.length ≥ 7 ∧ struct_cython.length ≥ 1 ∧
+    (struct_c.map (·.fields.length)).sum ≥ 44 ∧ (struct_fortran.map (·.fields.length)).sum ≥ 60 ∧
+    (struct_pascal.map (·.fields.length)).sum ≥ 41 ∧
+    lib_sources_meson.length ≥ 32 ∧ lib_sources_built.length ≥ 32 ∧ lib_build_facts.length ≥ 4 ∧
+    libtool_triples.length ≥ 2 ∧ soname_refs.length ≥ 3 ∧ swig_invocations.length ≥ 6 ∧ versions.length ≥ 9 ∧
+    libc_names.length ≤ 1 := by decide +kernel
+
+example : bindsSameB [⟨5, 200, []⟩, ⟨6, 0, []⟩] [9] [(5, 5), (5, 6), (5, 9)] = true := by decide
+example : bindsSameB [⟨5, 200, []⟩, ⟨7, 200, []⟩] [] [(5, 7)] = false := by decide
+example : bindsOwnB [5] [] [(5, 6)] = false := by decide
+example : routinesB [⟨5, 1, 2, 2⟩] [⟨5, 200, [100, 200, 302]⟩] = true := by decide
+example : routinesB [⟨5, 1, 2, 2⟩] [⟨5, 200, [100, 302]⟩] = false := by decide
+example : routinesB [⟨5, 1, 1, 1⟩] [⟨5, 0, [100]⟩] = false := by decide
+example : bindsOwnB [5, 7] [7] [(5, 5), (5, 6)] = true := by decide
+example : structsB [⟨5, [(1, 100), (2, 300)]⟩] [⟨5, [(1, 100), (2, 305)]⟩] = true := by decide
+example : structsB [⟨5, [(2, 300), (1, 100)]⟩] [⟨5, [(1, 100), (2, 305)]⟩] = false := by decide
+example : structsB [⟨5, [(1, 200)]⟩] [⟨5, [(1, 100)]⟩] = false := by decide
 /-- the checker is not trivially true: a one-entry binding table with a wrong value is rejected -/
 example : agreeB [] [⟨5, 0, 1, 0⟩] [⟨5, 0, 2, 0⟩] = false := by decide
 example : completeB [] [5] [4, 6] = false := by decide
